@@ -136,6 +136,8 @@ impl TreeClass {
     pub fn label(&self) -> &'static str {
         if self.big_unfragmented {
             "len>=16384/list-or-restricted-string"
+        } else if self.has_open_type && self.est_octets >= 16384 {
+            "open-type-in-message>=16384-octets"
         } else if self.big_bits {
             "len>=16384/bitstring"
         } else if self.big_fragmented {
